@@ -1,5 +1,6 @@
 import ConfModel.Driver.Common
 import ConfModel.Model.Compression
+import ConfModel.Model.CompressionRaw
 import ConfModel.Spec.Compression
 namespace ConfModel.Driver.C20
 open Lean ConfModel.Driver ConfModel.Compression ConfModel.CompressionSpec
@@ -106,6 +107,80 @@ def handle : Handler := fun op inp impl =>
     { agree := holds, holds := holds, nontrivial := msgs.length > 1, cls := toString (nat (field inp "enc")),
       model := toJson msgs,
       why := if holds then "" else "a reused compressor produced a stream that does not decode to the message" }
+  | "raw" =>
+    let stream := bool (field inp "stream")
+    let jitems := arr (field inp "items")
+    let optHex (j : Json) : Option Bytes := if isNull j then none else some (unhex (str j))
+    let present (j : Json) : Bool := let f := str (field j "form"); f != "unset" && f != "nil"
+    let items : List RawItem := jitems.map fun j =>
+      { enc := nat (field j "enc"), flags := nat (field j "flags"),
+        data := if present j then some (unhex (str (field j "data"))) else none }
+    let err := bool (field impl "err")
+    let out := unhex (str (field impl "out"))
+    let frames : List RawFrame := (arr (field impl "frames")).map fun j =>
+      { flags := nat (field j "flags"), len := nat (field j "len"), payload := unhex (str (field j "payload")),
+        dec := optHex (field j "dec"), ref := optHex (field j "ref") }
+    let rest := unhex (str (field impl "rest"))
+    -- model: internal/raw_http_body.go with the compression parameter instantiated by what a
+    -- fresh compressor of that enum value writes for the data (null: GetCompressor refuses)
+    let encs := (arr (field impl "encs")).map optHex
+    let table : List ((Nat × Bytes) × Option Bytes) := (items.zip encs).filterMap fun p =>
+      p.1.data.map fun d => ((p.1.enc, d), p.2)
+    let compress : RawBody.Compress := fun e d => ((table.lookup (e, d)).getD none)
+    let ritems : List RawBody.Item := (jitems.zip items).map fun p =>
+      { flags := p.2.flags,
+        length := if bool (field p.1 "explicit") then some ((str (field p.1 "data")).length / 2) else none,
+        payload := if str (field p.1 "form") == "nil" then none else some { data := p.2.data, compression := p.2.enc } }
+    let (mBytes, mErr) : Bytes × Bool :=
+      if stream then let w := RawBody.writeStream compress ritems; (w.bytes, w.failed)
+      else match RawBody.writeMessage compress ((ritems.head?).bind (·.payload)) with
+        | some b => (b, false)
+        | none => ([], true)
+    -- the implementation's frames must be the frames of its own output
+    let reparsed := if stream then splitFrames (frames.length + 1) out else ([(((items.head?).map (·.flags)).getD 0, out)], [])
+    let framesOk := err && !stream || (reparsed.1 == frames.map (fun f => (f.flags, f.payload)) && reparsed.2 == rest)
+    let claimed := rawClaimed items
+    let holds := !claimed || rawOk items err frames rest
+    { agree := out == mBytes && err == mErr && framesOk, holds := holds,
+      nontrivial := claimed && items.any (fun it => it.data.isSome && algOfEnum it.enc != some .identity),
+      model := Json.mkObj [("out", hex mBytes), ("err", mErr)],
+      cls := if stream then "stream" else "message",
+      why := if holds then "" else
+        "raw-payload encoder: a payload does not come back byte-exact from the matching decompressor (or the output is not one frame per item)" }
+  | "tres" =>
+    let enc := nat (field inp "enc")
+    let name := str (field inp "name")
+    -- the state the tracer's instance starts in is given by the NAME (tracer.GetDecompressor)
+    let kind : Option Kind := (algOfName (asciiLower name)).map fun a =>
+      match a with | .identity => Kind.noop | .gzip => .gzip | .brotli => .brotli | .zstd => .zstd | .zlib => .deflate | .snappy => .snappy
+    let msgs := arr (field inp "msgs")
+    let imsgs := arr (field impl "msgs")
+    let srcs := imsgs.map (fun m => unhex (str (field m "src")))
+    let table := (imsgs.filter (fun m => !(isNull (field m "fresh")))).map (fun m => (unhex (str (field m "src")), parseLook (field m "fresh")))
+    let l := oracle table (parseLook (field impl "empty"))
+    let tmsgs : List TMsg := (msgs.zip srcs).map fun p => { flags := nat (field p.1 "flags"), src := p.2 }
+    let mContents : List Bytes := match kind with
+      | some k => tracerBody l (init k) tmsgs
+      | none => tmsgs.map fun _ => []
+    -- the implementation's events: every `pd` (message) with the `ps` (content) that follows it
+    let events := strList (field impl "events")
+    let reported : List Bytes := (events.foldl (fun (acc : List Bytes) ev =>
+      if ev.startsWith "pd:" then [] :: acc
+      else if ev.startsWith "ps:" then (match acc with | _ :: t => unhex (ev.drop 3).toString :: t | [] => acc)
+      else acc) []).reverse
+    let pds := (events.filter (·.startsWith "pd:")).map fun ev => ((ev.splitOn ":").drop 1).take 2
+    let pdsOk := pds == tmsgs.map fun m => [toString m.flags, toString m.src.length]
+    let isEnd (f : Nat) : Bool := !(f % 4 < 2 && f % 256 < 128)
+    let expected : List (Option Bytes) := msgs.map fun m =>
+      let f := nat (field m "flags")
+      if !isEnd f then some []
+      else if str (field m "k") == "valid" || f % 2 == 0 then some (unhex (str (field m "data")))
+      else none
+    let holds := tracerOk expected reported
+    { agree := reported == mContents && pdsOk, holds := holds,
+      nontrivial := msgs.length > 1 && msgs.any (fun m => str (field m "k") != "valid"),
+      model := toJson (mContents.map hex), cls := "tracer:" ++ toString enc,
+      why := if holds then "" else "wire tracer: the end-stream content reported for a valid message is not the message (a damaged message earlier in the body must not matter)" }
   | _ => bad ("C20: unknown op " ++ op)
 
 end ConfModel.Driver.C20
